@@ -134,6 +134,67 @@ class ConstructAMF(Contract):
         return out
 
 
+class GetAnnotatedFunctions(Contract):
+    """MetricFrame._get_annotated_metric_functions: every metric is wrapped together with ITS OWN entry of sample_params (the whole dict for a bare
+    callable, {} for a dict entry without parameters), under its own name, writing into the same frame; and the caller's sample_params mapping is left
+    exactly as it was (a second MetricFrame built from the same dictionary must see the same per-sample parameters)."""
+    source, function = MF, "MetricFrame._get_annotated_metric_functions"
+
+    def __init__(self, kind):
+        self.kind = kind          # 'callable' | 'dict' | 'dict_no_params'
+        self.variant = f"[{kind}]"
+
+    def params(self, eng, st):
+        self.frame = Abstract("all_data")
+        self.fa, self.fb = Abstract("metric", name="a"), Abstract("metric", name="b")
+        self.pa, self.pb = PyDict({"sample_weight": Abstract("value", name="wa")}), PyDict({"sample_weight": Abstract("value", name="wb")})
+        if self.kind == "callable":
+            metric, sp = self.fa, PyDict({"sample_weight": Abstract("value", name="wa")})
+        elif self.kind == "dict":
+            metric, sp = PyDict({"a": self.fa, "b": self.fb}), PyDict({"a": self.pa})          # 'b' has no per-sample parameters
+        else:
+            metric, sp = PyDict({"a": self.fa, "b": self.fb}), None
+        self.metric, self.sp = metric, sp
+        self.before = None if sp is None else [(k, v) for k, v in sp.d.items()]
+        st.env.update({"self": Obj("MetricFrame"), "metric": metric, "sample_params": sp, "all_data": self.frame})
+        st.ghost["callers_sample_params"] = sp
+        st.ghost["wrapped"] = ()
+
+    def on_call(self, eng, st, node, name, recv, args, kwargs):
+        if name == "_construct_annotated_metric_function":
+            st.ghost["wrapped"] = st.ghost["wrapped"] + ((kwargs.get("func"), kwargs.get("name"), kwargs.get("sample_params"), kwargs.get("all_data")),)
+            return Obj("AnnotatedMetricFunction", {"name": kwargs.get("name"), "func": kwargs.get("func")})
+        if name == "isinstance" and (args[0] is st.env.get("metric") or args[0] is st.env.get("sample_params")) and args[1] == ["dict"]:
+            return isinstance(args[0], PyDict)
+        return NotImplemented
+
+    def post(self, eng, st, status, value):
+        if status != "return" or not isinstance(value, PyDict):
+            return [("returns_the_dict_of_annotated_functions", BoolVal(False))]
+        w = st.ghost["wrapped"]
+        sp = st.ghost["callers_sample_params"]
+        out = []
+        if self.kind == "callable":
+            ok = len(w) == 1 and w[0][0] is st.env["metric"] and w[0][1] is None and isinstance(w[0][2], PyDict) and list(w[0][2].d) == ["sample_weight"] and w[0][3] is st.env["all_data"]
+            out.append(("bare_callable_wrapped_once_with_all_sample_params", BoolVal(bool(ok))))
+        else:
+            m = st.env["metric"]
+            names = [x[1] for x in w]
+            ok = names == ["a", "b"] and w[0][0] is m.d["a"] and w[1][0] is m.d["b"] and all(x[3] is st.env["all_data"] for x in w)
+            out.append(("every_dict_entry_wrapped_under_its_own_name", BoolVal(bool(ok))))
+            if ok and self.kind == "dict":
+                own = isinstance(w[0][2], PyDict) and list(w[0][2].d) == ["sample_weight"] and getattr(w[0][2].d["sample_weight"], "name", None) == "wa" \
+                    and isinstance(w[1][2], PyDict) and not w[1][2].d
+                out.append(("every_metric_gets_its_own_sample_params_entry_or_none", BoolVal(bool(own))))
+            out.append(("result_keyed_by_the_metric_names", BoolVal(list(value.d) == ["a", "b"])))
+        if sp is not None:
+            same = [(k, v) for k, v in sp.d.items()]
+            out.append(("callers_sample_params_mapping_is_not_modified",
+                        BoolVal(len(same) == len(self.before) and all(k1 == k0 and (v1 is v0 or (isinstance(v1, PyDict) and isinstance(v0, PyDict) and list(v1.d) == list(v0.d)))
+                                                                      for (k1, v1), (k0, v0) in zip(same, self.before)))))
+        return out
+
+
 def column_name_injectivity():
     """-> list of (name, hyps, goal) for the lemma over ConstructAMF's postcondition"""
     n1, p1, n2, p2 = String("name1"), String("param1"), String("name2"), String("param2")
